@@ -392,6 +392,36 @@ def r37_masktable(repo, sink):
 
 
 # ========================================================================== R33c
+_NP_SIG = {"ravel": ["a", "order"], "reshape": ["a", "shape", "order"], "logical_not": ["x"], "invert": ["x"],
+           "empty_like": ["prototype", "dtype"], "prod": ["a", "axis"], "compress": ["a", "condition", "axis"]}
+_NP_ALIAS = {"newshape": "shape"}
+
+
+def _np_term(short, args, kwargs, method=False):
+    """Uninterpreted numpy term with arguments bound to the documented parameter names, so that
+    `np.ravel(m, order=o)`, `np.ravel(m, o)` and `m.ravel(o)` are one and the same term."""
+    sig = _NP_SIG.get(short)
+    if sig is None:
+        return Sym(short, *args, *[Sym("kw", k, v) for k, v in sorted(kwargs.items())])
+    args = list(args)
+    if short == "compress" and not method and len(args) >= 2:
+        args[0], args[1] = args[1], args[0]  # np.compress(condition, a) == a.compress(condition)
+    bound = dict(zip(sig, args))
+    extra = list(args[len(sig):])
+    for k, v in kwargs.items():
+        bound[_NP_ALIAS.get(k, k)] = v
+    if short == "compress" and not method and "condition" in kwargs and "a" in kwargs:
+        bound["a"], bound["condition"] = kwargs["a"], kwargs["condition"]
+    out = []
+    for name in sig:
+        if name in bound:
+            out.append(bound.pop(name))
+        else:
+            break
+    rest = [Sym("kw", k, v) for k, v in sorted(bound.items(), key=lambda kv: kv[0])]
+    return Sym(short, *out, *extra, *rest)
+
+
 class _ArrInterp(FinamInterp):
     """numpy calls become uninterpreted terms."""
 
@@ -411,7 +441,7 @@ class _ArrInterp(FinamInterp):
             if n == "to_masked":
                 return Sym("to_masked", args[0], tuple(sorted(kwargs.items())))
         if isinstance(fv, Sym) and fv.op == "method":
-            return Sym(fv.args[1], fv.args[0], *args, *[Sym("kw", k, v) for k, v in sorted(kwargs.items())])
+            return _np_term(fv.args[1], [fv.args[0]] + list(args), kwargs, method=True)
         return super().call_hook(fv, args, kwargs, node, mod)
 
     def get_attr(self, obj, attr, node, mod):
@@ -433,10 +463,16 @@ class _ArrInterp(FinamInterp):
 
     def ext_call(self, name, args, kwargs, node):
         short = name.split(".")[-1]
-        if short in ("ravel", "reshape", "logical_not", "empty_like", "prod"):
-            kw = [Sym("kw", k, v) for k, v in sorted(kwargs.items())]
-            return Sym(short, *args, *kw)
+        if short in ("ravel", "reshape", "logical_not", "empty_like", "prod", "compress", "invert"):
+            return _np_term(short, list(args), kwargs)
+        if short in ("asarray", "asanyarray") and args and (kwargs.get("dtype", args[1] if len(args) > 1 else None) in (Sym("builtin", "bool"), Sym("ext", "bool"), "bool")):
+            return Sym("asbool", args[0])
         return super().ext_call(name, args, kwargs, node)
+
+    def unaryop(self, op, v, node):
+        if isinstance(op, ast.Invert) and isinstance(v, Sym) and v.op == "asbool":
+            return Sym("logical_not", v.args[0])  # ~ on a boolean array is the logical negation
+        return super().unaryop(op, v, node)
 
     def set_item(self, c, k, v, node):
         if isinstance(c, Sym):
@@ -473,21 +509,21 @@ def r33c_compress(repo, sink):
                bad=f"to_compressed(mask=nomask) computes {got!r}: the requested order is lost")
     it = _ArrInterp(repo, masked_input=False)
     got = it.run(tc, [X], {"order": O})
-    sink.check(got == Sym("reshape", X, -1, Sym("kw", "order", O)), "R33", "compress:to:unmasked", tc, ok="unmasked data is flattened in the requested order",
+    sink.check(got == Sym("reshape", X, -1, O), "R33", "compress:to:unmasked", tc, ok="unmasked data is flattened in the requested order",
                bad=f"to_compressed on unmasked data computes {got!r}")
     # from_compressed
     it = _ArrInterp(repo, masked_input=False)
     got = it.run(fc, [X, SH], {"order": O, "mask": M})
     sc = [e for e in it.effects if e[0] == "scatter"]
-    ok = (len(sc) == 1 and sc[0][2] == Sym("logical_not", Sym("ravel", M, Sym("kw", "order", O))) and sc[0][3] == X
-          and isinstance(got, Sym) and got.op == "to_masked" and got.args[0] == Sym("reshape", sc[0][1], SH, Sym("kw", "order", O))
+    ok = (len(sc) == 1 and sc[0][2] == Sym("logical_not", Sym("ravel", M, O)) and sc[0][3] == X
+          and isinstance(got, Sym) and got.op == "to_masked" and got.args[0] == Sym("reshape", sc[0][1], SH, O)
           and dict(got.args[1]).get("mask") == M)
     sink.check(ok, "R33", "compress:from:mask", fc,
                ok="scatters into the unmasked positions of ravel(mask, order), reshapes with the same order, attaches the same mask",
                bad=f"from_compressed computes {got!r} with scatter {sc!r}: positions, order and mask must mirror to_compressed")
     it = _ArrInterp(repo, masked_input=False)
     got = it.run(fc, [X, SH], {"order": O})
-    sink.check(got == Sym("reshape", X, SH, Sym("kw", "order", O)), "R33", "compress:from:unmasked", fc, ok="without mask: plain reshape in the requested order",
+    sink.check(got == Sym("reshape", X, SH, O), "R33", "compress:from:unmasked", fc, ok="without mask: plain reshape in the requested order",
                bad=f"from_compressed without mask computes {got!r}")
 
 
